@@ -561,6 +561,18 @@ func (f *replicaFam) requestBlock(spec string, kv map[string]string) string {
 				hb = append(hb, 0xAB)
 			}
 			hb = hb[:l]
+			if l > 0 && l < len(h) {
+				// the handler pads a short hash with zero bytes: one time in 256 (l = 31) the padded value IS
+				// the block's hash; a script means "not the block's hash" by a short one, so make it so
+				zero := true
+				for _, x := range h[l:] {
+					zero = zero && x == 0
+				}
+				if zero {
+					hb = append([]byte(nil), hb...)
+					hb[0] ^= 0xff
+				}
+			}
 		}
 		req = wire(&hotstuffpb.BlockHash{Hash: hb}, &hotstuffpb.BlockHash{})
 	default:
